@@ -57,6 +57,13 @@ class M(Quiet):
 
 
 def run(ctx):
+    from rules.common import require_fields
+    from rules.common import require_members, require_module_names
+    require_members(ctx.program, 'queueutils.BasePriorityQueue', ['add', 'remove', '_cull', 'pop', 'peek', '_push_entry', '_pop_entry'])
+    require_members(ctx.program, 'listutils.BarrelList', ['_translate_index', 'insert', 'pop', '_balance_list'])
+    require_module_names(ctx.program, 'queueutils', ['_REMOVED'])
+    require_fields(ctx.program, 'queueutils.BasePriorityQueue', ['_pq', '_entry_map', '_counter'])
+    require_fields(ctx.program, 'listutils.BarrelList', ['lists'])
     prog = ctx.program
     barrel_positions(ctx, prog)
     base = prog.cls(BASE)
